@@ -528,6 +528,11 @@ Qed.
 Lemma v_step_release : forall v st, inv10 st -> inv10 (stepm st (ARelease v)).
 Proof. intros v st I. simpl. destruct (view_of v (views st)); [|exact I]. apply (inv10_same st); auto. Qed.
 
+Lemma v_step_prefetch : forall v st, inv10 st -> inv10 (stepm st (APrefetch v)).
+Proof.
+  intros v st I. simpl. destruct (vtag_of v (vtags st)) as [[stamp b]|]; [|exact I]. apply (inv10_same st); auto.
+Qed.
+
 Lemma v_step_tagadd : forall st, inv10 st -> inv10 (stepm st ATagAdd).
 Proof. intros st I. simpl. apply inv10_start_tagging. exact I. Qed.
 
@@ -776,11 +781,12 @@ Qed.
 
 Theorem step_inv10 : forall st a, inv13 junk st -> inv10 st -> inv10 (stepm st a).
 Proof.
-  intros st a I3 I. destruct a as [ks|v|v|v| |h|h| | | |n|b| | |k|k].
+  intros st a I3 I. destruct a as [ks|v|v|v|v| |h|h| | | |n|b| | |k|k].
   - apply v_step_import; auto.
   - apply v_step_view; auto.
   - apply v_step_read; auto.
   - apply v_step_release; auto.
+  - apply v_step_prefetch; auto.
   - apply v_step_tagadd; auto.
   - apply v_step_tagdel; auto.
   - apply v_step_tagupd; auto.
@@ -833,11 +839,12 @@ Proof. intros n fs H f Hf. apply H. eapply in_skipn. eauto. Qed.
 
 Lemma step_files_ok : forall st a, inv10 st -> files_ok (indexes st) -> files_ok (indexes (stepm st a)).
 Proof.
-  intros st a I U. destruct a as [ks|v|v|v| |h|h| | | |n|b| | |k|k]; simpl; auto.
+  intros st a I U. destruct a as [ks|v|v|v|v| |h|h| | | |n|b| | |k|k]; simpl; auto.
   - destruct ks; auto. destruct (ascending _ _); auto. destruct (_ =? _)%nat; auto.
   - destruct (view_of v (views st)); auto.
   - destruct (view_of v (views st)) as [[|]|]; auto. destruct rf; auto.
   - destruct (view_of v (views st)); auto.
+  - destruct (vtag_of v (vtags st)) as [[stamp b0]|]; auto.
   - rewrite indexes_start_tagging. exact U.
   - rewrite indexes_start_tagging. exact U.
   - rewrite indexes_start_converter, indexes_start_tagging. exact U.
@@ -929,11 +936,12 @@ Qed.
 Lemma view_step_stable : forall st a v s, rf = false -> view_of v (views st) = Some s -> a <> ARelease v ->
   view_of v (views (stepm st a)) = Some s.
 Proof.
-  intros st a v s Hrf H Ha. destruct a as [ks|w|w|w| |h|h| | | |n|b| | |k|k]; simpl; auto.
+  intros st a v s Hrf H Ha. destruct a as [ks|w|w|w|w| |h|h| | | |n|b| | |k|k]; simpl; auto.
   - destruct ks; auto. destruct (ascending _ _); auto. destruct (_ =? _)%nat; auto.
   - destruct (view_of w (views st)) eqn:E; auto. simpl. rewrite view_of_app, H. reflexivity.
   - destruct (view_of w (views st)) as [[|]|]; auto. rewrite Hrf. auto.
   - destruct (view_of w (views st)) eqn:E; auto. simpl. rewrite view_of_del_other; auto. congruence.
+  - destruct (vtag_of w (vtags st)) as [[stamp b0]|]; auto.
   - rewrite views_start_tagging. exact H.
   - rewrite views_start_tagging. exact H.
   - rewrite views_start_converter, views_start_tagging. exact H.
@@ -965,6 +973,105 @@ Lemma view_run_stable : forall acts st v s, rf = false -> view_of v (views st) =
 Proof.
   induction acts; simpl; intros; auto.
   apply IHacts; auto. apply view_step_stable; auto.
+Qed.
+
+(* ---------------------------------------------------------------- the view's own copy of the tag details (ghost) *)
+Lemma vtags_start_tagging : forall st, vtags (start_tagging st) = vtags st.
+Proof. intros. unfold start_tagging. destruct (tjob st); auto. destruct (unc st =? 0); auto. Qed.
+
+Lemma vtags_start_converter : forall st, vtags (start_converter st) = vtags st.
+Proof. intros. unfold start_converter. destruct (cjob st); auto. destruct (cwork st); auto. Qed.
+
+Lemma vtags_start_merge : forall st, vtags (start_merge st) = vtags st.
+Proof.
+  intros. unfold start_merge. destruct (mjob st); auto. destruct (tjob st); auto. destruct (cjob st); auto.
+  destruct (unc st =? 0); auto. destruct (find_merge (nunm st) (indexes st)); auto.
+Qed.
+
+Lemma vtag_of_app : forall v a b, vtag_of v (a ++ b) = match vtag_of v a with Some t => Some t | None => vtag_of v b end.
+Proof. induction a as [|[w t] r]; simpl; intros; [reflexivity|]. destruct (w =? v); auto. Qed.
+
+Lemma vtag_of_del_other : forall v w vs, v <> w -> vtag_of v (del_vtag w vs) = vtag_of v vs.
+Proof.
+  induction vs as [|[x t] r]; simpl; intros; [reflexivity|].
+  destruct (N.eqb_spec x w).
+  - subst. destruct (N.eqb_spec w v); [congruence|reflexivity].
+  - simpl. destruct (x =? v); auto.
+Qed.
+
+Lemma vtag_of_set_other : forall v w t vs, v <> w -> vtag_of v (set_vtag w t vs) = vtag_of v vs.
+Proof.
+  induction vs as [|[x t0] r]; simpl; intros; [reflexivity|].
+  destruct (N.eqb_spec x w); simpl.
+  - subst. destruct (N.eqb_spec w v); [congruence|reflexivity].
+  - destruct (x =? v); auto.
+Qed.
+
+Lemma vtag_of_set_same : forall v t vs t0, vtag_of v vs = Some t0 -> vtag_of v (set_vtag v t vs) = Some t.
+Proof.
+  induction vs as [|[x t1] r]; simpl; intros; [discriminate|].
+  destruct (N.eqb_spec x v); simpl.
+  - subst. rewrite N.eqb_refl. reflexivity.
+  - destruct (N.eqb_spec x v); [congruence|]. eauto.
+Qed.
+
+(* Whatever happens -- tag changes, environment, OTHER views evaluating tags lazily -- the copy of the tag details a view
+   took at fetch keeps its stamp; only the view's own prefetch sets its "evaluated" flag. *)
+Lemma vtag_step_stable : forall st a v stamp b, rf = false ->
+  vtag_of v (vtags st) = Some (stamp, b) -> a <> ARelease v ->
+  vtag_of v (vtags (stepm st a)) = Some (stamp, if match a with APrefetch w => w =? v | _ => false end then true else b).
+Proof.
+  intros st a v stamp b Hrf H Ha. destruct a as [ks|w|w|w|w| |h|h| | | |n|b0| | |k|k]; simpl; auto.
+  - destruct ks; auto. destruct (ascending _ _); auto. destruct (_ =? _)%nat; auto.
+  - destruct (view_of w (views st)) eqn:E; auto. simpl. rewrite vtag_of_app, H. reflexivity.
+  - destruct (view_of w (views st)) as [[|]|]; auto. rewrite Hrf. auto.
+  - destruct (view_of w (views st)) eqn:E; auto. simpl. rewrite vtag_of_del_other; auto. congruence.
+  - destruct (N.eqb_spec w v).
+    + subst w. rewrite H. simpl. eapply vtag_of_set_same. exact H.
+    + destruct (vtag_of w (vtags st)) as [[s0 b1]|]; auto. simpl. rewrite vtag_of_set_other; auto.
+  - rewrite vtags_start_tagging. exact H.
+  - rewrite vtags_start_tagging. exact H.
+  - rewrite vtags_start_converter, vtags_start_tagging. exact H.
+  - rewrite vtags_start_converter, vtags_start_tagging. exact H.
+  - rewrite vtags_start_tagging. exact H.
+  - rewrite vtags_start_merge, vtags_start_converter, vtags_start_tagging. exact H.
+  - destruct (mjob st) as [[off snap [|] mg]|]; auto.
+  - destruct k.
+    + destruct (ijob st) as [[caps nx snap [|] cr un np]|]; auto.
+      destruct (from_pcap capdb bad (known st) caps snap) as [[es usednew] allk]. auto.
+    + destruct (mjob st) as [[off snap [|] mg]|]; auto.
+    + destruct (tjob st) as [[snap [|] vv]|]; auto.
+    + destruct (cjob st) as [[snap [|]]|]; auto.
+  - destruct k.
+    + destruct (ijob st) as [[caps nx snap [|] cr un np]|]; auto.
+      rewrite vtags_start_merge, vtags_start_converter, vtags_start_tagging.
+      destruct (skipn np (queue st)); exact H.
+    + destruct (mjob st) as [[off snap [|] mg]|]; auto.
+      unfold set_used_disk. simpl. rewrite vtags_start_merge. destruct mg; exact H.
+    + destruct (tjob st) as [[snap [|] vv]|]; auto.
+      unfold set_used_disk. simpl. rewrite vtags_start_merge, vtags_start_converter, vtags_start_tagging. exact H.
+    + destruct (cjob st) as [[snap [|]]|]; auto.
+      unfold set_used_disk. simpl. rewrite vtags_start_merge, vtags_start_converter, vtags_start_tagging. exact H.
+Qed.
+
+Lemma vtag_run_stable : forall acts st v stamp b, rf = false ->
+  vtag_of v (vtags st) = Some (stamp, b) -> (forall a, In a acts -> a <> ARelease v) ->
+  exists b', vtag_of v (vtags (fold_left stepm acts st)) = Some (stamp, b') /\
+             ((forall a, In a acts -> a <> APrefetch v) -> b' = b).
+Proof.
+  induction acts as [|a r IH]; simpl; intros st v stamp b Hrf H Hr.
+  - exists b. auto.
+  - assert (Ha : a <> ARelease v) by (apply Hr; auto).
+    pose proof (vtag_step_stable st a v stamp b Hrf H Ha) as S.
+    destruct (IH _ _ _ _ Hrf S (fun x Hx => Hr x (or_intror Hx))) as (b' & E & P).
+    exists b'. split; [exact E|]. intros NP. rewrite P; [|intros x Hx; apply NP; auto].
+    destruct a; auto. destruct (N.eqb_spec v0 v); [|reflexivity]. subst. exfalso. apply (NP (APrefetch v)); auto.
+Qed.
+
+Lemma vtag_open : forall st v, view_of v (views st) = None -> vtag_of v (vtags st) = None ->
+  vtag_of v (vtags (stepm st (AView v))) = Some (tagver st, false).
+Proof.
+  intros st v H1 H2. simpl. rewrite H1. simpl. rewrite vtag_of_app, H2. simpl. rewrite N.eqb_refl. reflexivity.
 Qed.
 
 End View.
@@ -1001,6 +1108,133 @@ Proof.
     pose proof (merge_ents_sub fs e He) as Hs.
     rewrite lookup_vis_none in P. apply (P e Hs). exact Ex.
 Qed.
+
+(* ================================================================ what an import completion reports as processed *)
+(* The files a job was handed are (still) the front of the import queue: ImportPcaps only appends behind them, nothing else
+   touches the queue while the job is in flight. Hence the completion reports exactly the files it removes from the queue. *)
+Definition caps_prefix (st : state) : Prop :=
+  forall j, ijob st = Some j -> firstn (length (ij_caps j)) (queue st) = ij_caps j.
+
+Lemma iq_start_tagging : forall st, ijob (start_tagging st) = ijob st /\ queue (start_tagging st) = queue st.
+Proof. intros. unfold start_tagging. destruct (tjob st); auto. destruct (unc st =? 0); auto. Qed.
+
+Lemma iq_start_converter : forall st, ijob (start_converter st) = ijob st /\ queue (start_converter st) = queue st.
+Proof. intros. unfold start_converter. destruct (cjob st); auto. destruct (cwork st); auto. Qed.
+
+Lemma iq_start_merge : forall st, ijob (start_merge st) = ijob st /\ queue (start_merge st) = queue st.
+Proof.
+  intros. unfold start_merge. destruct (mjob st); auto. destruct (tjob st); auto. destruct (cjob st); auto.
+  destruct (unc st =? 0); auto. destruct (find_merge (nunm st) (indexes st)); auto.
+Qed.
+
+Lemma caps_prefix_same : forall st st', ijob st' = ijob st -> queue st' = queue st -> caps_prefix st -> caps_prefix st'.
+Proof. unfold caps_prefix. intros st st' E1 E2 H j Hj. rewrite E1 in Hj. rewrite E2. auto. Qed.
+
+Lemma firstn_length_firstn : forall (A : Type) n (l : list A), firstn (length (firstn n l)) l = firstn n l.
+Proof.
+  induction n; destruct l; simpl; auto. rewrite IHn. reflexivity.
+Qed.
+
+Section ReportedProcessed.
+Variable capdb : N -> capture.
+Variable bad : N -> bool.
+Variable rf : bool.
+Variable merge : list file -> list entry.
+Notation stepq := (step capdb bad rf merge).
+
+Ltac same_iq st :=
+  apply (caps_prefix_same st); auto.
+
+Lemma step_caps_prefix : forall st a, caps_prefix st -> caps_prefix (stepq st a).
+Proof.
+  intros st a H. destruct a as [ks|v|v|v|v| |h|h| | | |n|b| | |k|k]; simpl.
+  - destruct ks as [|k0 ks']; auto. set (ks := k0 :: ks') in *. clearbody ks.
+    destruct (ascending (next_cap st) ks); auto.
+    destruct (Nat.eqb_spec (length (queue st ++ ks)) (length ks)).
+    + intros j Hj. unfold launch_import in *. cbn [ijob queue] in *. inversion Hj; subst j; cbn [ij_caps].
+      apply firstn_length_firstn.
+    + intros j Hj. cbn [ijob queue] in *. specialize (H j Hj).
+      assert (L : (length (ij_caps j) <= length (queue st))%nat).
+      { rewrite <- H at 1. rewrite firstn_length. lia. }
+      rewrite firstn_app. replace (length (ij_caps j) - length (queue st))%nat with 0%nat by lia.
+      simpl. rewrite app_nil_r. exact H.
+  - destruct (view_of v (views st)); auto; same_iq st.
+  - destruct (view_of v (views st)) as [[|]|]; auto. destruct rf; auto; same_iq st.
+  - destruct (view_of v (views st)); auto; same_iq st.
+  - destruct (vtag_of v (vtags st)) as [[s0 b0]|]; auto; same_iq st.
+  - destruct (iq_start_tagging st) as [A B]; apply (caps_prefix_same st); [rewrite A|rewrite B|]; auto.
+  - match goal with |- caps_prefix (start_tagging ?s) => destruct (iq_start_tagging s) as [A B]; apply (caps_prefix_same st); [rewrite A|rewrite B|]; auto end.
+  - match goal with |- caps_prefix (start_converter (start_tagging ?s)) =>
+      destruct (iq_start_tagging s) as [A B]; destruct (iq_start_converter (start_tagging s)) as [A2 B2];
+      apply (caps_prefix_same st); [rewrite A2, A|rewrite B2, B|]; auto end.
+  - destruct (iq_start_tagging st) as [A B]. destruct (iq_start_converter (start_tagging st)) as [A2 B2].
+    apply (caps_prefix_same st); [rewrite A2, A|rewrite B2, B|]; auto.
+  - destruct (iq_start_tagging st) as [A B]; apply (caps_prefix_same st); [rewrite A|rewrite B|]; auto.
+  - exact H.
+  - same_iq st.
+  - same_iq st.
+  - destruct (iq_start_tagging st) as [A B]. destruct (iq_start_converter (start_tagging st)) as [A2 B2].
+    destruct (iq_start_merge (start_converter (start_tagging st))) as [A3 B3].
+    apply (caps_prefix_same st); [rewrite A3, A2, A|rewrite B3, B2, B|]; auto.
+  - destruct (mjob st) as [[off snap [|] mg]|]; auto; same_iq st.
+  - destruct k.
+    + destruct (ijob st) as [[caps nx snap [|] cr un np]|] eqn:Hj; auto.
+      destruct (from_pcap capdb bad (known st) caps snap) as [[es usednew] allk].
+      intros j E. simpl in E. inversion E; subst; simpl. exact (H _ Hj).
+    + destruct (mjob st) as [[off snap [|] mg]|]; auto; same_iq st.
+    + destruct (tjob st) as [[snap [|] vv]|]; auto; same_iq st.
+    + destruct (cjob st) as [[snap [|]]|]; auto; same_iq st.
+  - destruct k.
+    + destruct (ijob st) as [[caps nx snap [|] cr un np]|] eqn:Hj; auto.
+      match goal with |- caps_prefix (start_merge (start_converter (start_tagging ?s))) =>
+        destruct (iq_start_tagging s) as [A B]; destruct (iq_start_converter (start_tagging s)) as [A2 B2];
+        destruct (iq_start_merge (start_converter (start_tagging s))) as [A3 B3];
+        apply (caps_prefix_same s); [rewrite A3, A2, A|rewrite B3, B2, B|]; auto end.
+      destruct (skipn np (queue st)) eqn:Q.
+      * intros j E. discriminate.
+      * intros j E. unfold launch_import in *. cbn [ijob queue] in *. inversion E; subst j; cbn [ij_caps]. apply firstn_all.
+    + destruct (mjob st) as [[off snap [|] mg]|]; auto.
+      match goal with |- caps_prefix (set_used_disk (start_merge ?s) _) =>
+        destruct (iq_start_merge s) as [A B]; apply (caps_prefix_same st); simpl; [rewrite A|rewrite B|]; auto end;
+      destruct mg; reflexivity.
+    + destruct (tjob st) as [[snap [|] vv]|]; auto.
+      match goal with |- caps_prefix (set_used_disk (start_merge (start_converter (start_tagging ?s))) _) =>
+        destruct (iq_start_tagging s) as [A B]; destruct (iq_start_converter (start_tagging s)) as [A2 B2];
+        destruct (iq_start_merge (start_converter (start_tagging s))) as [A3 B3];
+        apply (caps_prefix_same st); simpl; [rewrite A3, A2, A|rewrite B3, B2, B|]; auto end.
+    + destruct (cjob st) as [[snap [|]]|]; auto.
+      match goal with |- caps_prefix (set_used_disk (start_merge (start_converter (start_tagging ?s))) _) =>
+        destruct (iq_start_tagging s) as [A B]; destruct (iq_start_converter (start_tagging s)) as [A2 B2];
+        destruct (iq_start_merge (start_converter (start_tagging s))) as [A3 B3];
+        apply (caps_prefix_same st); simpl; [rewrite A3, A2, A|rewrite B3, B2, B|]; auto end.
+Qed.
+
+Lemma run_caps_prefix : forall acts st, caps_prefix st -> caps_prefix (fold_left stepq acts st).
+Proof. induction acts; simpl; intros; auto. apply IHacts. apply step_caps_prefix. auto. Qed.
+
+(* the completion of an import job: the captures it reports processed are exactly the files it takes off the queue *)
+Lemma report_is_queue_front : forall st j, caps_prefix st -> ijob st = Some j -> ij_phase j = AtDone ->
+  (ij_nproc j <= length (ij_caps j))%nat ->
+  let st' := stepq st (AComplete KImport) in
+  exists reported, processed st' = processed st ++ reported /\ queue st = reported ++ queue st'.
+Proof.
+  intros st j H Hj Hp Hn st'. exists (firstn (ij_nproc j) (ij_caps j)).
+  subst st'. simpl. rewrite Hj. destruct j as [caps nx snap ph cr un np]. simpl in *. subst ph.
+  match goal with |- processed (start_merge (start_converter (start_tagging ?s))) = _ /\ _ = _ ++ queue (start_merge (start_converter (start_tagging ?s))) =>
+    destruct (iq_start_tagging s) as [A B]; destruct (iq_start_converter (start_tagging s)) as [A2 B2];
+    destruct (iq_start_merge (start_converter (start_tagging s))) as [A3 B3]; rewrite B3, B2, B;
+    assert (PR : processed (start_merge (start_converter (start_tagging s))) = processed s) end.
+  { unfold start_merge, start_converter, start_tagging.
+    repeat match goal with |- context [match ?x with _ => _ end] => destruct x; simpl end; reflexivity. }
+  rewrite PR. clear PR A A2 A3 B B2 B3.
+  assert (F : firstn np caps = firstn np (queue st)).
+  { pose proof (H _ Hj) as HH. simpl in HH. rewrite <- HH at 1. rewrite firstn_firstn. replace (Init.Nat.min np (length caps)) with np by lia. reflexivity. }
+  split.
+  - destruct (skipn np (queue st)); reflexivity.
+  - rewrite F. destruct (skipn np (queue st)) eqn:Q; simpl; rewrite <- Q; symmetry; apply firstn_skipn.
+Qed.
+
+End ReportedProcessed.
 
 (* ================================================================ statements of C10 *)
 Lemma visible_once : forall fs id1 id2 e1 e2, ids_ok fs ->
@@ -1085,6 +1319,27 @@ Proof.
   pose proof (run_files_ok_st0 false acts1) as W.
   destruct (all_streams_answer (processed st1) (indexes st1) (v_spec _ _ _ _ I) (v_ids _ _ _ _ I) W) as (A & B & C).
   split; [exact A|]. split; [exact B|]. split; [exact C|exact D].
+Qed.
+
+Hypothesis startQ : caps_prefix st0.
+
+Lemma proc_caps_len : forall ks, (length (proc_caps bad ks) <= length ks)%nat.
+Proof.
+  intros ks. pose proof (proc_caps_firstn bad ks) as H.
+  rewrite <- H at 1. rewrite firstn_length. lia.
+Qed.
+
+Theorem report_names_queue_front : forall rf acts j,
+  let st := runf rf acts in
+  ijob st = Some j -> ij_phase j = AtDone ->
+  let st' := step capdb bad rf merge st (AComplete KImport) in
+  exists reported, processed st' = processed st ++ reported /\ queue st = reported ++ queue st'.
+Proof.
+  intros rf acts j st Hj Hp.
+  apply (report_is_queue_front capdb bad rf merge st j); auto.
+  - apply run_caps_prefix. exact startQ.
+  - destruct (v_ij _ _ _ _ (run_inv10_st0 rf acts) j Hj) as (_ & _ & J3).
+    destruct (J3 Hp) as [Np _]. rewrite Np. apply proc_caps_len.
 Qed.
 
 End Statements.
